@@ -79,6 +79,7 @@ package cache
 //@   ensures [meta-connected-and-sync-are-boolean C12 C15] res1 == nil && len(JP(n)) >= 2 && first(JP(n)) == "meta" && (JP(n)[1] == "connected" || JP(n)[1] == "sync")
 //@     ==> n.Update[0].Val != nil && isa(n.Update[0].Val.Value.(*pb.TypedValue_BoolVal))
 //@   ensures [never-removes C14] forall k PKey :: old(tstore[t.t][k]) != nil ==> tstore[t.t][k] == old(tstore[t.t][k])
+//@   ensures [stored-values-exist] old(StoredExist()) ==> StoredExist()
 // C03: the change feed. A leaf is returned (to be announced) iff the tree changed and the change is not suppressed;
 // suppression happens only with event-driven emulation on, for a non-atomic update whose value equals the stored one.
 //@   ensures [announce-the-changed-leaf C03] res0 != nil ==> res1 == nil && res0 == L0(t, n) && LeafVal(res0) == box(n)
@@ -188,19 +189,20 @@ package cache
 //@   requires TargetWf(t) && NotiWf(n) && n.Prefix != nil && n.Prefix.Target != "" && StoredWf(t) && CountersRegistered() && AllTVWf()
 //@   requires len(owed) == 0 && Unstored(n)
 //@   modifies ghost tstore, ghost treal, ghost intAdded, ghost owed, ghost tsSeen, ghost updSteps, ghost delSteps, ghost wiped, ghost resetDone, heap(ctree.Tree.leafBranch), t.sync, t.ts, n.Update, n.Delete
-//@   invariant 0: OthersKept(t) && len(owed) == 0 && StoredWf(t) && n.Update == nil && n.Delete == nil && InputsWf(updates, deletes)
+//@   invariant 0: (old(StoredExist()) ==> StoredExist()) && OthersKept(t) && len(owed) == 0 && StoredWf(t) && n.Update == nil && n.Delete == nil && InputsWf(updates, deletes)
 //@     && updates == old(n.Update) && deletes == old(n.Delete) && updSteps == old(updSteps) + $i && delSteps == old(delSteps) && 0 <= $i && $i <= len(updates)
-//@   invariant 1: OthersKept(t) && len(owed) == 0 && StoredWf(t) && n.Update == nil && n.Delete == nil && InputsWf(updates, deletes)
+//@   invariant 1: (old(StoredExist()) ==> StoredExist()) && OthersKept(t) && len(owed) == 0 && StoredWf(t) && n.Update == nil && n.Delete == nil && InputsWf(updates, deletes)
 //@     && updates == old(n.Update) && deletes == old(n.Delete) && updSteps == old(updSteps) + len(updates) && delSteps == old(delSteps) + $i && 0 <= $i && $i <= len(deletes)
-//@   invariant 2: OthersKept(t) && StoredWf(t) && n.Update == nil && n.Delete == nil && InputsWf(updates, deletes) && Owing($range, $i)
+//@   invariant 2: (old(StoredExist()) ==> StoredExist()) && OthersKept(t) && StoredWf(t) && n.Update == nil && n.Delete == nil && InputsWf(updates, deletes) && Owing($range, $i)
 //@     && updates == old(n.Update) && deletes == old(n.Delete) && updSteps == old(updSteps) + len(updates) && delSteps == old(delSteps) + $i1 + 1 && 0 <= $i1 && $i1 < len(deletes)
-//@   invariant 3: OthersKept(t) && StoredWf(t) && Owing($range, $i) && updSteps == old(updSteps) && delSteps == old(delSteps) + 1
+//@   invariant 3: (old(StoredExist()) ==> StoredExist()) && OthersKept(t) && StoredWf(t) && Owing($range, $i) && updSteps == old(updSteps) && delSteps == old(delSteps) + 1
 //@   ensures [updates-then-deletes C03 C01] !n.Atomic ==> updSteps == old(updSteps) + old(len(n.Update)) && delSteps == old(delSteps) + old(len(n.Delete))
 //@   ensures [atomic-is-one-step C03 C01] n.Atomic && len(n.Delete) == 0 ==> updSteps == old(updSteps) + ite(len(n.Update) > 0, 1, 0) && delSteps == old(delSteps)
 //@   ensures [ts-advanced-on-accept C15] old(GuardTS(n)) && old(Single(n)) && res0 == nil ==> tsSeen[t] >= n.Timestamp
 //@   ensures [ts-untouched-on-reject C15 C02] old(Single(n)) && res0 != nil ==> tsSeen == old(tsSeen)
 //@   ensures [latest-timestamp-any-path C15] old(Single(n)) && old(Real(n)) && res0 == nil ==> tsSeen[t] >= n.Timestamp
 //@   ensures [other-targets-untouched C14] OthersKept(t)
+//@   ensures [stored-values-exist] old(StoredExist()) ==> StoredExist()
 //@   ensures [all-announced C03] len(owed) == 0
 //@   ensures [input-restored C03] n.Update == old(n.Update) && n.Delete == old(n.Delete)
 //@   ensures [stored-wf] StoredWf(t)
@@ -245,6 +247,7 @@ package cache
 //@   requires Now != nil
 //@   invariant 0: fresh(pe) && len(pe) == $i && cap(pe) == len(p) && (forall j int :: 0 <= j && j < $i ==> pe[j] != nil && fresh(pe[j]) && pe[j].Name == p[j])
 //@   ensures [shape C14] fresh(res0) && res0 != nil && res0.Timestamp == wrap64s(nowval) && res0.Prefix != nil && res0.Prefix.Target == t && res0.Prefix.Origin == o
+//@   ensures [well-formed] NotiWf(res0)
 //@   ensures [single-delete C14] len(res0.Delete) == 1 && res0.Delete[0] != nil && len(res0.Update) == 0 && !res0.Atomic && len(res0.Delete[0].Element) == 0
 //@   ensures [path C14] len(res0.Delete[0].Elem) == len(p) && (forall j int :: 0 <= j && j < len(p) ==> res0.Delete[0].Elem[j] != nil && res0.Delete[0].Elem[j].Name == p[j])
 
@@ -408,3 +411,68 @@ package cache
 //@   ensures [unknown-target-refused C14] target != "" && target != "*" && c.targets[target] == nil ==> res0 != nil && queried == old(queried)
 //@   ensures [all-targets C14] target == "*" && res0 == nil ==> (forall k string :: has(c.targets, k) ==> has(queried, c.targets[k].t))
 //@   ensures [only-the-addressed-tree C14] target != "*" ==> (forall u ref :: has(queried, u) && !old(has(queried, u)) ==> c.targets[target] != nil && u == c.targets[target].t)
+
+// ---- session events (Sync / Connect / ConnectError) ----------------------------------
+// They are ordinary metadata updates of the addressed target, built fresh, and go through
+// the same ingest path (so they are announced and counted like any update).
+// (a stored value never designates a message that does not exist yet)
+//@ pred StoredExist() := forall r ref, m *pb.Notification :: LeafVal(r) == box(m) ==> allocated(m)
+//@ pred EventPost(t *Target) := OthersKept(t) && len(owed) == 0 && StoredWf(t)
+//@ func (*Target).Sync
+//@   props C14 C15 C12
+//@   requires Ready(t) && len(owed) == 0 && StoredExist()
+//@   modifies ghost tstore, ghost treal, ghost intAdded, ghost owed, ghost tsSeen, ghost updSteps, ghost delSteps, ghost wiped, ghost resetDone, heap(ctree.Tree.leafBranch), t.sync, t.ts, heap(pb.Notification.Update), heap(pb.Notification.Delete)
+//@   ensures [only-this-target C14] EventPost(t)
+//@ func (*Target).Connect
+//@   props C14 C15 C12
+//@   requires Ready(t) && len(owed) == 0 && StoredExist()
+//@   modifies ghost tstore, ghost treal, ghost intAdded, ghost owed, ghost tsSeen, ghost updSteps, ghost delSteps, ghost wiped, ghost resetDone, heap(ctree.Tree.leafBranch), t.sync, t.ts, heap(pb.Notification.Update), heap(pb.Notification.Delete)
+//@   ensures [only-this-target C14] OthersKept(t) && len(owed) == 0
+//@ func (*Target).connectError
+//@   props C14 C15 C12
+//@   requires Ready(t) && len(owed) == 0 && StoredExist() && err != nil
+//@   modifies ghost tstore, ghost treal, ghost intAdded, ghost owed, ghost tsSeen, ghost updSteps, ghost delSteps, ghost wiped, ghost resetDone, heap(ctree.Tree.leafBranch), t.sync, t.ts, heap(pb.Notification.Update), heap(pb.Notification.Delete)
+//@   ensures [only-this-target C14] EventPost(t)
+//@ func iface error.Error
+
+// Cache-level session events: handed to the target filed under the name, and to no other;
+// an unknown name is ignored.
+//@ func (*Cache).Sync
+//@   props C14 C12
+//@   locks c
+//@   requires c != nil && Globals() && len(owed) == 0 && StoredExist()
+//@   modifies ghost tstore, ghost treal, ghost intAdded, ghost owed, ghost tsSeen, ghost updSteps, ghost delSteps, ghost wiped, ghost resetDone, heap(ctree.Tree.leafBranch), heap(Target.sync), heap(Target.ts), heap(pb.Notification.Update), heap(pb.Notification.Delete)
+//@   assert at call (*Target).Sync#0: [addressed-target-only C14] arg0 == c.targets[name] && arg0 != nil
+//@ func (*Cache).Connect
+//@   props C14 C12
+//@   locks c
+//@   requires c != nil && Globals() && len(owed) == 0 && StoredExist()
+//@   modifies ghost tstore, ghost treal, ghost intAdded, ghost owed, ghost tsSeen, ghost updSteps, ghost delSteps, ghost wiped, ghost resetDone, heap(ctree.Tree.leafBranch), heap(Target.sync), heap(Target.ts), heap(pb.Notification.Update), heap(pb.Notification.Delete)
+//@   assert at call (*Target).Connect#0: [addressed-target-only C14] arg0 == c.targets[name] && arg0 != nil
+//@ func (*Cache).ConnectError
+//@   props C14 C12
+//@   locks c
+//@   requires c != nil && Globals() && len(owed) == 0 && StoredExist() && err != nil
+//@   modifies ghost tstore, ghost treal, ghost intAdded, ghost owed, ghost tsSeen, ghost updSteps, ghost delSteps, ghost wiped, ghost resetDone, heap(ctree.Tree.leafBranch), heap(Target.sync), heap(Target.ts), heap(pb.Notification.Update), heap(pb.Notification.Delete)
+//@   assert at call (*Target).connectError#0: [addressed-target-only C14] arg0 == c.targets[name] && arg0 != nil
+
+// SetClient installs the feed callback in the cache and in every target, under the lock.
+//@ func (*Cache).SetClient
+//@   props C14 C03 C12
+//@   locks c
+//@   requires c != nil && client != nil
+//@   modifies heap(Target.client)
+//@   invariant 0: wheld(c.mu) && c.client == client && c.targets != nil && (forall k string :: has(c.targets, k) ==> c.targets[k] != nil) && (forall k string :: has($visited, k) ==> c.targets[k].client == client)
+//@ func (*Cache).Metadata
+//@   props C14 C12
+//@   locks c
+//@   requires c != nil
+//@   invariant 0: rheld(c.mu) && md != nil && (forall k string :: has($visited, k) ==> has(md, k) && md[k] == c.targets[k].meta)
+//@   ensures [every-target-listed C14] res0 != nil && (forall k string :: has(c.targets, k) ==> has(res0, k) && res0[k] == c.targets[k].meta)
+//@ func (*Target).Name
+//@   props C14 C12
+//@   requires t != nil
+//@   ensures res0 == t.name
+//@ func (*Cache).LatencyWindows
+//@   props C12
+//@   requires c != nil
